@@ -33,6 +33,21 @@ Definition bi_round (args : list value) : outcome value :=
       Ok (VNum (ndiv (nround (nmul num multiplier)) multiplier))
   end.
 
+(* ---------- random(seed): fastrand 2.3.0, Rng::with_seed(seed as u64).f64() ----------
+   WyRand step (gen_u64): s = state + C0 (wrapping); t = s * (s xor C1) as u128; (t as u64) xor (t >> 64);
+   f64(): from_bits((1 << 62) - (1 << 52) + (u >> 12)) - 1.0, i.e. a double in [1, 2) minus 1. *)
+Definition WY_CONST_0 : Z := 0x2d358dccaa6c78a5.
+Definition WY_CONST_1 : Z := 0x8bb84b93962eacc9.
+Definition wy_gen_u64 (state : Z) : Z :=
+  let s := (state + WY_CONST_0) mod 2 ^ 64 in
+  let t := s * Z.lxor s WY_CONST_1 in
+  Z.lxor (t mod 2 ^ 64) (t / 2 ^ 64).
+Definition rng_f64 (seed : Z) : num :=
+  nsub (num_of_bits (2 ^ 62 - 2 ^ 52 + wy_gen_u64 seed / 2 ^ 12)) (num_of_Z 1).
+Definition bi_random (args : list value) : outcome value :=
+  do a0 <- arg args 0; do x <- as_number a0;
+  Ok (VNum (rng_f64 (as_u64 x))).                         (* `as u64`: saturating, NaN -> 0 *)
+
 (* ---------- to_number ---------- *)
 Definition parse_result (r : option num) : outcome value :=
   match r with Some n => Ok (VNum n) | None => Err end.
